@@ -63,6 +63,11 @@ pub enum Op {
     RejectNext(Rec),
     /// C16 only: read bypassing the cache
     GetDirectAzks,
+    /// C16 only: another instance writes straight to the database (node / epoch records)
+    External(Rec),
+    /// C16 only: disable / enable cache cleaning
+    CleanOff,
+    CleanOn,
 }
 #[derive(Serialize, Deserialize, Clone, Debug)]
 pub struct Case {
